@@ -39,6 +39,7 @@ type Plan struct {
 	IntervalMs int
 	Peers      int
 	Own        bool // own-evidence mode
+	PreHealth  int  `json:",omitempty"` // accusations about the node itself delivered just before the suspicion starts: it refutes each, so its health score is that much above zero (the timeouts must not depend on it)
 	Script     []Act
 }
 
@@ -87,6 +88,7 @@ func genPlan(t *rapid.T) Plan {
 	}
 	p.Peers = rapid.OneOf(rapid.IntRange(0, 8), rapid.IntRange(0, maxPeers)).Draw(t, "peers")
 	p.Own = rapid.IntRange(0, 3).Draw(t, "own") == 0
+	p.PreHealth = rapid.SampledFrom([]int{0, 0, 1, 2, 5}).Draw(t, "prehealth")
 	m := newModel(p.Mult, p.MaxMult, p.Peers+2, time.Duration(p.IntervalMs)*time.Millisecond)
 	// anchors: every analytic deadline
 	var anchors []int
@@ -191,6 +193,17 @@ func run(pl Plan) (res vfx.Result) {
 	const lat = 200 * time.Microsecond
 	var start time.Duration // absolute virtual time at which the suspicion begins
 	accuser := "acc"
+	accuseSelf := func() {
+		if pl.PreHealth == 0 {
+			return
+		}
+		for i := 0; i < pl.PreHealth; i++ {
+			// each one is refuted (the node's incarnation rises past it), which costs one point of health
+			p.Net.SendFrom(src, p.Addr(), p.Outer(puppet.Claim{Kind: "suspect", Node: "n0", Inc: uint32(1 + i), From: "acc"}.Leaf()))
+			time.Sleep(300 * time.Microsecond)
+		}
+		labels[fmt.Sprintf("health-at-start:%d", p.M.GetHealthScore())] = true
+	}
 	if pl.Own {
 		accuser = "n0"
 		x.AckPings, x.AckTCP = false, false
@@ -227,6 +240,9 @@ func run(pl Plan) (res vfx.Result) {
 		got := tp
 		mu.Unlock()
 		p.Net.OnEvent = nil
+		if got >= 0 && p.Net.Now() < got+interval-5*time.Millisecond {
+			accuseSelf() // the probe of x is still running: the score is raised before its failure starts the suspicion
+		}
 		if got < 0 {
 			return fail("own-evidence mode: the node never probed the subject")
 		}
@@ -246,6 +262,7 @@ func run(pl Plan) (res vfx.Result) {
 		}
 	} else {
 		time.Sleep(500 * time.Microsecond)
+		accuseSelf()
 		sendAt := p.Net.Now()
 		p.Net.SendFrom(src, p.Addr(), p.Outer(puppet.Claim{Kind: "suspect", Node: "x", Inc: 1, From: "acc"}.Leaf()))
 		start = sendAt + lat
